@@ -33,6 +33,7 @@ MUTANTS = [
     {"name": "set_meta-guard-temporary", "file": "src/proxy/manager.rs", "old": "let _guard = self.lock.lock();", "new": "let _ = self.lock.lock();", "expect": "C05.D2:guard"},
     {"name": "setrepl-second-writer", "file": "src/replication/manager.rs", "old": "    pub fn get_role_num(&self) -> (usize, usize) {", "new": "    pub fn reset_epoch(&self) {\n        self.updating_epoch.store(0, atomic::Ordering::SeqCst);\n    }\n\n    pub fn get_role_num(&self) -> (usize, usize) {", "expect": "C05.D3:single-writer:ReplicatorManager.updating_epoch"},
     {"name": "setcluster-reply-swapped", "file": "src/proxy/executor.rs", "old": "                ClusterMetaError::OldEpoch => cmd_ctx.set_resp_result(Ok(Resp::Error(\n                    response::OLD_EPOCH_REPLY", "new": "                ClusterMetaError::OldEpoch => cmd_ctx.set_resp_result(Ok(Resp::Error(\n                    response::TRY_AGAIN_REPLY", "expect": "C05.D4:setcluster:OldEpoch"},
+    {"name": "replicator-kept-by-role-only", "file": "src/replication/manager.rs", "old": "            if Some(true)\n                == master_key_set\n                    .get(key)\n                    .and_then(|meta| replicator.as_ref().left().map(|m| m.get_meta() == meta))\n            {", "new": "            if replicator.is_left() && master_key_set.contains_key(key) {", "expect": "C05.D5"},
 ]
 
 ERR = "proxy::cluster::ClusterMetaError"
@@ -165,6 +166,7 @@ def run(ctx):
     ctx.rule("C05.D1", "install decision table over {lt,eq,gt} x force x host-match (conditional constant propagation), for SETCLUSTER and SETREPL", exhaustive=True)
     ctx.rule("C05.D2", "atomic install: lock dominates compare and stores, guard alive in between, snapshot stored before epoch, stored values originate from the same message")
     ctx.rule("C05.D3", "single writer of MetaManager.epoch / meta_map and ReplicatorManager.updating_epoch / replicators over lib + bins")
+    ctx.rule("C05.D5", "SETREPL carries a running replicator over to the new epoch only when its metadata equals the accepted message's (role and peers); everything else is rebuilt from the message")
     ctx.rule("C05.D4", "reply mapping OldEpoch->OLD_EPOCH_REPLY, NotMyMeta->ERR_NOT_MY_META; GETEPOCH replies the installed epoch")
 
     # ---------------------------------------------------------------- locate writers (D3 + anchors)
@@ -413,6 +415,7 @@ def run(ctx):
 
     # ---------------------------------------------------------------- D4 reply mapping
     _reply_mapping(ctx)
+    _replicator_reuse(ctx)
 
 
 def _check_hosts_fn(ctx):
@@ -547,3 +550,37 @@ def _reply_mapping(ctx):
             loads = [x for x in atomic_sites(g) if x[2] == "load" and (MM, "epoch") in x[3]]
             ctx.check(len(loads) == 1, "C05.D4", "getepoch:loads-installed-epoch", site(g), ok="get_epoch loads MetaManager.epoch",
                       bad="MetaManager::get_epoch does not load the epoch field")
+
+
+def _replicator_reuse(ctx):
+    """update_replicators answers OK and records the message's epoch; the replication roles behind that epoch are the
+    message's only if every replicator that is kept (not rebuilt from the message) was compared with the message's
+    metadata for that node - a node that keeps its role but changes its peers must get a new replicator"""
+    from ..lib import branch_conditions
+    F = ctx.F
+    b = F.one("ReplicatorManager::update_replicators")
+    if b is None:
+        ctx.lost("C05.D5", "update_replicators", "not found")
+        return
+    ctx.analysed(b)
+    du = DefUse(b)
+    dom = cfg.dominators(b)
+    reuse = []
+    for bb, t in b.calls():
+        c = callee_of(t) or ""
+        if not (c.endswith("HashMap::insert") and len(t["args"]) > 2):
+            continue
+        v = du.slice_operand(t["args"][2])
+        # the inserted value comes from the installed table (self.replicators), not from a constructor
+        if v.has_field("ReplicatorManager", "replicators") and not (v.has_call("RedisMasterReplicator::new") or v.has_call("RedisReplicaReplicator::new")):
+            reuse.append((bb, t))
+    if not ctx.floor("C05.D5", "carried-over replicator insertions", len(reuse), 2):
+        return
+    for n, (bb, t) in enumerate(reuse):
+        ok = False
+        for d, discr, val in branch_conditions(b, bb, dom):
+            sl = du.slice_operand(discr)
+            if sl.has_call("get_meta") and (sl.has_call("PartialEq::eq") or sl.has_call("PartialEq::ne") or sl.binops & {"Eq", "Ne"}) and (sl.has_call("HashMap::get") or sl.has_call("HashMap::get_key_value") or sl.has_call("HashMap::remove")):
+                ok = True
+        ctx.check(ok, "C05.D5", "reuse-only-if-meta-equal#%d" % n, site(b, bb), ok="kept only when replicator.get_meta() equals the message's metadata for this node",
+                  bad="a running replicator is carried over to the new epoch without comparing its metadata (peers) with the accepted message: the epoch is recorded and answered OK while the node keeps replicating from its old peer")
